@@ -525,8 +525,8 @@ def build(tier, seed):
     grid = list(itertools.product((1, 2, 3), repeat=3))
     if tier == "quick":
         grid = [(2, 2, 2), (3, 3, 3), (1, 1, 1), (1, 2, 2), (2, 1, 2), (2, 2, 1), (3, 2, 2), (2, 3, 3), (1, 3, 3), (3, 1, 2)]
-    for Ne, nPg, dim in grid:
-        obs.append(Ob(f"C12.ops.{Ne}x{nPg}x{dim}", ob_ops, (Ne, nPg, dim, seed), "X",
+    for Ne, nPg, dim, sd in [(*g_, s_) for g_ in grid for s_ in (range(3) if tier == "thorough" else range(1))]:
+        obs.append(Ob(f"C12.ops.{Ne}x{nPg}x{dim}" + (f".s{sd}" if sd else ""), ob_ops, (Ne, nPg, dim, seed + sd), "X",
                       (fl("FeArray.__array_ufunc__"), fl("FeArray.__array_function__"), fl("FeArray.__matmul__"), fl("FeArray.dot"), fl("FeArray.ddot"), fl("Det"), fl("Inv"), fl("TensorProd")),
                       bound="ranks 0-4, 14 binary + 10 unary ufuncs, 11 reducers x all axes, both operand orders; integer-valued data",
                       clause="every operation equals the per-(e,p) tensor operation; FeArray type iff the leading axes survive", timeout=600))
